@@ -669,7 +669,7 @@ func run(c *engine.Ctx) {
 	runUnorderedSpellings(c)
 	runWideBoundaries(c)
 	runDefaultChains(c)
-	bases := []string{"int8", "uint8", "int64", "uint64", "decimal64/1", "decimal64/2", "decimal64/18", "string"}
+	bases := []string{"int8", "uint8", "int64", "uint64", "decimal64/1", "decimal64/2", "decimal64/12", "decimal64/18", "string"}
 	nTypedefs := 2
 	nlat := 11
 	if !c.Quick() {
